@@ -1,4 +1,4 @@
-import Emmet.Math
+import Emmet.MathExtract
 namespace Drv.Math
 open M
 def hexVal (ch : Char) : Nat :=
@@ -20,7 +20,13 @@ partial def go (h o : IO.FS.Stream) : IO Unit := do
   let s := decode line.trimAsciiEnd.toString
   let p := match parse s with | .ok ts => "ok " ++ " ".intercalate (ts.map showTok) | .error e => showErr e
   let e := match evaluate s with | .ok (some q) => "ok " ++ showQ q | .ok none => "ok None" | .error e => showErr e
-  o.putStrLn (p ++ " || " ++ e)
+  -- extract(): every position 0..len under the four option sets (lookAhead, whitespace)
+  let mut x := ""
+  for (la, ws) in [(true, true), (true, false), (false, true), (false, false)] do
+    for pos in List.range (s.length + 1) do
+      x := x ++ (match extract s pos la ws with | some (a, b) => s!"{a}-{b} " | none => "N ")
+    x := x ++ "/ "
+  o.putStrLn (p ++ " || " ++ e ++ " || " ++ x.trimAsciiEnd.toString)
   go h o
 def main : IO Unit := do go (← IO.getStdin) (← IO.getStdout)
 end Drv.Math
